@@ -86,6 +86,18 @@ def witness_search(tier, seed):
             a = rnd.randrange(len(t))
             t = t[:a] + rnd.choice(["", "#X:y;", ";", ":", "\n#LOW:z;", "junk"]) + t[a + rnd.randrange(0, 30):]
         texts.append(t)
+    # a save that fails half way (an SSC chart without note data cannot be written) leaves nothing behind for the next save
+    ok_text = "#TITLE:fine;#SUBTITLE:x;"
+    ref = str(simfile.loads(ok_text))
+    broken = simfile.loads("#VERSION:0.83;#TITLE:b;#NOTEDATA:;#STEPSTYPE:x;")
+    for _ in range(2):
+        try:
+            str(broken)
+        except Exception:
+            pass
+        if str(simfile.loads(ok_text)) != ref:
+            return dict(input=dict(history="str() of an SSC simfile whose chart has no NOTES (raises), then str() of another simfile", text=ok_text),
+                        detail="the second save differs from the save of the same simfile before the failed one")
     for text in texts:
         if text.rstrip().endswith("\\"):
             continue
